@@ -553,6 +553,11 @@ def run_check(check, tier, master_seed, runs=None, budget_s=None, quiet=False):
         else:
             case = check.gen_case(random.Random(seed), index)
         res = execute_case(check, case)
+        if res.get('pin') is not None:
+            # the run pinned its nondeterministic-by-policy part (e.g. the recorded schedule) into the case
+            pinned = res['pin']
+            if same_violation(execute_case(check, pinned), violation['signature']):
+                case = pinned
         v = same_violation(res, violation['signature'])
         minimised = False
         if v is not None:
